@@ -1,12 +1,93 @@
 /-
-  Line-protocol handlers for C12.  `handle` receives the tokens after the property id.
+  Line-protocol handlers for C12 (the reported best is the best evaluated).
+  Model ops run the tracker models on a history; `prop_*` ops evaluate the property's own
+  statement (in terms of raw fitness values and the declared direction) on what the
+  IMPLEMENTATION reported.
 -/
 import GEVerif.Model.Sexp
+import GEVerif.Model.Eval
+import GEVerif.Model.EvalWire
 
 namespace GEVerif.Drive.C12
-open GEVerif Sexp
+open GEVerif Sexp GEVerif.Eval GEVerif.Eval.Wire
+
+/-- best id after each registration, and the flags -/
+def singleTrace (h : List Reg) : List Sexp × List Bool :=
+  let r := h.foldl (fun (acc : Option Reg × List Sexp × List Bool) r =>
+      let (b', f) := sStep acc.1 r
+      (b', acc.2.1 ++ [optId b'], acc.2.2 ++ [f])) (none, [], [])
+  (r.2.1, r.2.2)
+
+/-- Pareto list (ids) after each registration, and the flags -/
+def multiTrace (h : List Reg) : List Sexp × List Bool :=
+  let r := h.foldl (fun (acc : List Reg × List Sexp × List Bool) r =>
+      let (f', b) := mStep acc.1 r
+      (f', acc.2.1 ++ [ids f'], acc.2.2 ++ [b])) ([], [], [])
+  (r.2.1, r.2.2)
+
+/-- `a` at least as good as `b` in the declared direction (raw fitness values) -/
+def asGood (minimize : Bool) (a b : Int) : Bool := if minimize then decide (a ≤ b) else decide (b ≤ a)
+def strictlyBetter (minimize : Bool) (a b : Int) : Bool := if minimize then decide (a < b) else decide (b < a)
+
+def rawOf (h : List Reg) (id : Nat) : Option Int := (h.find? (·.id == id)).map (·.agg)
+
+/-- The property for a single-objective tracker, on the implementation's report: after every
+registration `k` the reported best is an individual seen so far whose raw value is at least as
+good as every value seen so far; the flag is set iff `k = 0` or the value strictly improves on
+all earlier ones. (`h` carries RAW values in `.agg`.) -/
+def propSingle (minimize : Bool) (h : List Reg) (bests : List Nat) (flags : List Bool) : Bool :=
+  bests.length == h.length && flags.length == h.length &&
+  (List.range h.length).all fun k =>
+    let seen := h.take (k + 1)
+    let earlier := h.take k
+    match bests[k]?, flags[k]?, h[k]? with
+    | some b, some fl, some cur =>
+      (match rawOf seen b with
+        | some bv => seen.all (fun x => asGood minimize bv x.agg)
+        | none => false) &&
+      (fl == (k == 0 || earlier.all (fun x => strictlyBetter minimize cur.agg x.agg)))
+    | _, _, _ => false
+
+/-- The property for a multi-objective tracker: every reported best individual (every member of
+the list, and every flagged individual) attains the best aggregate seen so far. -/
+def propMulti (h : List Reg) (fronts : List (List Nat)) (flags : List Bool) : Bool :=
+  fronts.length == h.length && flags.length == h.length &&
+  (List.range h.length).all fun k =>
+    let seen := h.take (k + 1)
+    match fronts[k]?, flags[k]?, h[k]? with
+    | some fr, some fl, some cur =>
+      !fr.isEmpty &&
+      fr.all (fun b => match rawOf seen b with
+        | some bv => seen.all (fun x => decide (x.agg ≤ bv))
+        | none => false) &&
+      (!fl || seen.all (fun x => decide (x.agg ≤ cur.agg)))
+    | _, _, _ => false
 
 def handle : List Sexp → Option Sexp
+  | [atom "single_run", h] => do
+      let (bs, fs) := singleTrace (← parseRegs h)
+      pure (list [list bs, ofBools fs])
+  | [atom "multi_run", h] => do
+      let (frs, fs) := multiTrace (← parseRegs h)
+      pure (list [list frs, ofBools fs])
+  | [atom "search_result", t, h] => do
+      let t ← parseTracker t
+      pure (optId (t.presentAll (← parseRegs h)).best?)
+  | [atom "prop_single", mn, h, bests, flags] => do
+      pure (ofBool (propSingle (← mn.asBool?) (← parseRegs h) (← bests.asNats?) (← asBools? flags)))
+  | [atom "prop_multi", h, fronts, flags] => do
+      let frs ← (← fronts.asList?).mapM asNats?
+      pure (ofBool (propMulti (← parseRegs h) frs (← asBools? flags)))
+  | [atom "prop_returned", mn, h, ret] => do
+      let h ← parseRegs h
+      let mn ← mn.asBool?
+      match ret with
+      | atom "none" => pure (ofBool h.isEmpty)
+      | r => do
+        let id ← r.asNat?
+        pure (ofBool (match rawOf h id with
+          | some bv => h.all (fun x => asGood mn bv x.agg)
+          | none => false))
   | _ => none
 
 end GEVerif.Drive.C12
